@@ -356,3 +356,8 @@ def b_native(B):
         B.case("savedchans_inverse_through_metadata_file", not badc, detail=badc[:3])
     finally:
         shutil.rmtree(d, ignore_errors=True)
+
+
+# ----------------------------------------------------------------------------- contracts of dependencies this property rests on (re-checked here)
+from pyvc.api import depends  # noqa: E402
+depends(PROPERTY, "C17", ["firstlast"])      # generator contract + nwin == count, used by the window-loop harnesses
